@@ -886,6 +886,15 @@ func (fr *Frame) evalCall(sc *Scope, x *ECall) Val {
 		v := fr.evalExpr(sc, x.Args[1])
 		h := fr.heap(sc.st, "R:"+id.Name, ArrSort(SInt, SBool))
 		return scalar(boolT, Select(h, fr.refOf(v)))
+	case "capturesVar":
+		// capturesVar(x): the function literal being spawned (callsite go:) captures the spawner's variable x
+		// itself (by reference), so both goroutines can access it
+		argn(1)
+		id, ok := x.Args[0].(*EIdent)
+		if !ok {
+			cfail("capturesVar: a variable name is expected")
+		}
+		return scalar(boolT, boolTerm(fr.top.goCapVars[id.Name]))
 	case "captures":
 		// captures(x): the goroutine being spawned (callsite go:) receives a reference to x's object,
 		// as an argument or in a captured variable
